@@ -1,0 +1,24 @@
+//go:build verif && (verif_all || verif_c03)
+// +build verif
+// +build verif_all verif_c03
+
+package gocql
+
+// Verification hook (build tag `verif`) for property C03, compression on/off at the builder tier:
+// the request frame is built the way Conn.exec builds it on a connection whose compressor is comp
+// (newFramer(comp, version), optional trace(), buildFrame -> framer.finish). Add-only.
+
+// VerifC03fBuildRequest is VerifBuildRequest with a compressor configured on the framer.
+func VerifC03fBuildRequest(comp Compressor, version byte, tracing bool, stream int, r *VerifRequest) ([]byte, error) {
+	req := verifFrameBuilder(r)
+	framer := newFramer(comp, version)
+	if tracing {
+		framer.trace()
+	}
+	if err := req.buildFrame(framer, stream); err != nil {
+		return nil, err
+	}
+	out := make([]byte, len(framer.buf))
+	copy(out, framer.buf)
+	return out, nil
+}
